@@ -32,6 +32,10 @@ def jsonable(x):
     if isinstance(x, np.ndarray):
         if x.dtype == object:
             return [jsonable(v) for v in x.tolist()]
+        if x.dtype.kind in 'iufc' and x.dtype not in (np.dtype('float64'), np.dtype('complex128'), np.dtype('int64'), np.dtype('uint64')):
+            # narrow / single-precision records (int16 PCM, float32, complex64 ...): the dtype is part of the input, a replay must rebuild it exactly
+            wide = {'i': np.int64, 'u': np.int64, 'f': np.float64, 'c': np.complex128}[x.dtype.kind]
+            return {'__nd__': str(x.dtype), 'v': jsonable(x.astype(wide))}
         if np.iscomplexobj(x):
             return {'__c__': [x.real.tolist(), x.imag.tolist()]}
         if x.dtype.kind in 'iu':
@@ -77,6 +81,8 @@ def unjson(x):
             return complex(_unfloat(re), _unfloat(im))
         if '__i__' in x and len(x) == 1:
             return np.array(x['__i__'], dtype=np.int64)
+        if '__nd__' in x and len(x) == 2:
+            return np.asarray(unjson(x['v'])).astype(np.dtype(x['__nd__']))
         return {k: unjson(v) for k, v in x.items()}
     if isinstance(x, list):
         if x and all(isinstance(v, (int, float)) and not isinstance(v, bool) for v in x) \
